@@ -81,7 +81,7 @@ def _ew(op, a, b):
 
 _CMP = {ast.Lt: lambda a, b: a < b, ast.LtE: lambda a, b: a <= b, ast.Gt: lambda a, b: a > b, ast.GtE: lambda a, b: a >= b,
         ast.Eq: lambda a, b: a == b, ast.NotEq: lambda a, b: a != b}
-_BIN = {ast.Add: lambda a, b: a + b, ast.Sub: lambda a, b: a - b, ast.Mult: lambda a, b: a * b, ast.FloorDiv: lambda a, b: a // b, ast.Mod: lambda a, b: a % b,
+_BIN = {ast.Pow: lambda a, b: a ** b, ast.Add: lambda a, b: a + b, ast.Sub: lambda a, b: a - b, ast.Mult: lambda a, b: a * b, ast.FloorDiv: lambda a, b: a // b, ast.Mod: lambda a, b: a % b,
         ast.BitAnd: lambda a, b: a & b, ast.BitOr: lambda a, b: a | b, ast.LShift: lambda a, b: a << b, ast.RShift: lambda a, b: a >> b, ast.BitXor: lambda a, b: a ^ b}
 
 
@@ -201,6 +201,12 @@ class VecEval:
                     raise Unsupported('slice store shape')
                 for k, x in zip(pos, vals):
                     base[k] = x
+            elif isinstance(i, tuple) and len(i) == 2 and isinstance(i[0], slice) and i[0] == slice(None) and isinstance(i[1], int) and (not base or isinstance(base[0], list)):
+                col = list(v) if isinstance(v, (tuple, list)) else [v] * len(base)
+                if len(col) != len(base):
+                    raise Unsupported('column store shape')
+                for row, x in zip(base, col):
+                    row[i[1]] = x
             elif isinstance(i, tuple) and len(i) == 2 and isinstance(i[0], int) and isinstance(i[1], slice) and i[1] == slice(None) and isinstance(base[i[0]], list):
                 row = list(v) if isinstance(v, (tuple, list)) else [v] * len(base[i[0]])
                 if len(row) != len(base[i[0]]):
@@ -538,6 +544,17 @@ class VecEval:
                         a = min(a, hi_)
                     return a
                 return _ew(_cl, v_, 0)
+        if fn in ('np.minimum', 'np.maximum', 'np.fmin', 'np.fmax', 'numpy.minimum', 'numpy.maximum') and len(e.args) == 2:
+            a_, b_ = self.expr(e.args[0]), self.expr(e.args[1])
+            ignore = 'fm' in fn
+            pick = min if 'min' in fn else max
+
+            def _mm(x, y):
+                xn, yn = isinstance(x, float) and x != x, isinstance(y, float) and y != y
+                if xn or yn:
+                    return (y if xn else x) if ignore and not (xn and yn) else float('nan')
+                return pick(x, y)
+            return _ew(_mm, a_, b_)
         if fn in ('np.clip', 'numpy.clip') and len(e.args) == 3:
             v_, lo_, hi_ = (self.expr(a) for a in e.args)
             return _ew(lambda a, b: a if a != a else min(max(a, lo_), hi_), v_, 0)
@@ -602,6 +619,8 @@ class VecEval:
                 return [[v_] * n_[1] for _ in range(n_[0])]
         if fn in ('np.zeros', 'numpy.zeros', 'np.ones', 'numpy.ones') and e.args:
             n_ = self.expr(e.args[0])
+            if isinstance(n_, tuple) and len(n_) == 2 and all(isinstance(x, int) for x in n_):
+                return [[1 if 'ones' in fn else 0] * n_[1] for _ in range(n_[0])]
             if isinstance(n_, int):
                 return [('ones' in fn)] * n_ if any(k.arg == 'dtype' and 'bool' in ast.unparse(k.value) for k in e.keywords) else [1 if 'ones' in fn else 0] * n_
         if fn == 'divmod' and len(e.args) == 2:
